@@ -1,4 +1,5 @@
 import CorsVerif.Props.C05
+import CorsVerif.Proofs.Translated
 /-
   C04 — No insecure or out-of-range configuration is ever accepted.
 
@@ -146,5 +147,17 @@ theorem C04_valid_ascii (name : Bytes) (h : Headers.isValid name = true) : ∀ b
 #print axioms C04
 #print axioms C04_nil
 #print axioms C04_clauses
+
+
+/-- **C04 (translated validators).** `validatePreflightStatus` and `validateMaxAge` — the two loop-free validators, where the
+integer subtleties live (range test before the `uint8` conversion, `-1` / `0` / default handling) — are translated from
+/repo's config.go on every run (constants evaluated by go/types) and equal the hand-written `Validate.status` /
+`Validate.maxAge` for every integer: same acceptance, same error value with its bounds, same stored value. -/
+theorem C04_validators_translated (x : Int) :
+    Gen.GoSrc.validatePreflightStatus x = (match Validate.status x with | .ok v => (none, v) | .error e => (some e, 0)) ∧
+    Gen.GoSrc.validateMaxAge x = (match Validate.maxAge x with | .ok v => (none, v) | .error e => (some e, [])) :=
+  ⟨Translated.validatePreflightStatus_eq x, Translated.validateMaxAge_eq x⟩
+
+#print axioms C04_validators_translated
 
 end Cors
